@@ -59,8 +59,11 @@ func textPipelineRule(r *Run, rule string) {
 		return st.Field(fa.Field)
 	}
 	// judge: v is the text at some hop inside fn
-	var judge func(fn *ssa.Function, v ssa.Value, at token.Pos, depth int)
-	judge = func(fn *ssa.Function, v ssa.Value, at token.Pos, depth int) {
+	// root: the function at whose hop the walk began (a helper it calls to compute the text is judged as part of it)
+	var judgeIn func(root, fn *ssa.Function, v ssa.Value, at token.Pos, depth int)
+	judge := func(fn *ssa.Function, v ssa.Value, at token.Pos, depth int) { judgeIn(fn, fn, v, at, depth) }
+	judgeIn = func(root, fn *ssa.Function, v ssa.Value, at token.Pos, depth int) {
+		judge := func(fn *ssa.Function, v ssa.Value, at token.Pos, depth int) { judgeIn(root, fn, v, at, depth) }
 		if depth > 8 {
 			bad(fn, at, "the origin of the text cannot be followed")
 			return
@@ -126,11 +129,20 @@ func textPipelineRule(r *Run, rule string) {
 					return // as above
 				}
 			}
+			// a helper of the module that hands back a string: what it returns is judged in its place
+			if g := x.Call.StaticCallee(); g != nil && inModule(g) && len(g.Blocks) > 0 && g.Signature.Results().Len() == 1 && depth < 6 {
+				for _, b := range g.Blocks {
+					if ret, isRet := b.Instrs[len(b.Instrs)-1].(*ssa.Return); isRet && len(ret.Results) == 1 {
+						judge(g, ret.Results[0], ret.Pos(), depth+1)
+					}
+				}
+				return
+			}
 			pkg, name := staticCalleeName(x)
 			bad(fn, at, "the text handed on is the result of "+pkg+"."+name+": the template is no longer copied byte for byte (literal text, strings and line structure are those of the rewritten text)")
 		case *ssa.BinOp:
-			if why, ok := c02PipeExceptions[ssaName(fn)]; ok {
-				r.Note("R7 exception %s: %s", ssaName(fn), why)
+			if why, ok := c02PipeExceptions[ssaName(root)]; ok {
+				r.Note("R7 exception %s: %s", ssaName(root), why)
 				return
 			}
 			bad(fn, at, "the text handed on is computed ("+x.Op.String()+")")
